@@ -55,6 +55,30 @@ def kind_of(t):
     return c.rsplit("::", 1)[-1]
 
 
+PASS_THROUGH = re.compile(r"(ops::try_trait::Try::branch|convert::(From::from|Into::into|TryFrom::try_from|TryInto::try_into)|"
+                          r"(option::Option|result::Result)::<[^>]*>::(unwrap|expect|unwrap_or|unwrap_or_default)|clone::Clone::clone|"
+                          r"num::<impl [a-z0-9]+>::(wrapping_|saturating_|checked_)?(add|sub|mul)|cmp::(max|min|Ord::max|Ord::min))$")
+
+
+def _value_sources(f, d, operand, limit=200):
+    """provenance of a value through copies, casts, arithmetic and value-preserving calls only (`?`, into, unwrap, ...):
+    the result of any other call is a source of its own, its arguments are not followed"""
+    out = set()
+    seen = set()
+    work = [operand]
+    n = 0
+    while work and n < limit:
+        n += 1
+        o = work.pop()
+        for s_ in d._op_sources(o, 0, set(), True):
+            out.add(s_)
+            if s_[0] == "call" and isinstance(s_[2], int) and s_[2] not in seen and PASS_THROUGH.search(s_[1] or ""):
+                seen.add(s_[2])
+                for a in f.blocks[s_[2]]["t"].get("a", []):
+                    work.append(a)
+    return out
+
+
 def run(db, tier):
     rep = Report("C16", tier, EXPLANATION, RULE)
     rep.rule("R-PANIC-BIN", "explicit panic sites in the reader layer are audited and independent of file bytes")
@@ -263,4 +287,73 @@ def run(db, tier):
     rep.floor("SimpleArg constructions in decode_args_with_abi", n_sa, 2)
     rep.check(bool(res), "R-IMM-INV", "decode_args_with_abi|consults is_always_immediate", da.loc, "is_always_immediate() is consulted", "is_always_immediate() is never consulted")
 
+    # ---------------- R-PANIC-DECOMP: explicit panic sites in the decompile-side code of the format modules
+    rep.rule("R-PANIC-DECOMP", "explicit panic sites (unwrap/expect/assert/unreachable/panic) in functions of src/formats reachable from the decompile "
+                               "entry points are audited: one more such site than audited is a potential crash on file-derived data")
+    dtab = json.load(open(os.path.join(VERIF, "engine", "tables", "c16_panic_decompile.json")))["entries"]
+    in_scope = set(f.id for f in fs)
+    droots = [f.id for f in db.fns.values() if re.search(r"formats::.*::decompile$|decompile_to_ast$|formats::std::decompile_std$", f.id)]
+    rep.floor("decompile entry points", len(droots), 8)
+    DR = db.reachable(droots)
+    cnt_d = {}
+    n_d = n_df = 0
+    for f in sorted((db.fns[i] for i in DR if i in db.fns), key=lambda f: (root_fn(f.id), f.file, f.line, f.id)):
+        if f.gen or not f.file.startswith("src/formats/") or f.id in in_scope:
+            continue
+        n_df += 1
+        rep.fn(f)
+        rid = root_fn(f.id)
+        cnt = cnt_d.setdefault(rid, {})
+        for bi, t in f.calls():
+            c = t.get("f", "")
+            if not PANIC.match(c) or f.blocks[bi].get("cleanup"):
+                continue
+            n_d += 1
+            rep.site()
+            k = kind_of(t)
+            cnt[k] = cnt.get(k, 0) + 1
+            key = "%s|%s|%d" % (rid, k, cnt[k])
+            ent = dtab.get(rid)
+            if ent and cnt[k] <= ent.get("allow", {}).get(k, 0):
+                rep.ok("R-PANIC-DECOMP", key, "%s:%d" % (f.file, t["ln"]), "%s: audited: %s" % (k, ent["reason"]))
+            else:
+                rep.bad("R-PANIC-DECOMP", key, "%s:%d" % (f.file, t["ln"]), "%s in decompile-side code that handles file-derived data, not covered by the audit (%s)" % (
+                    k, "audit allows %d" % ent.get("allow", {}).get(k, 0) if ent else "function not audited"))
+    rep.floor("decompile-side functions of src/formats", n_df, 100)
+    rep.floor("explicit panic sites in decompile-side format code", n_d, 15)
+    # ---------------- R-TAINT-SLICE: a number read from the file never selects a sub-slice without a bound check
+    rep.rule("R-TAINT-SLICE", "in the reader layer a value read from the file (BinRead::read_*) reaches the bounds of a range-slicing / split "
+                              "operation only behind a dominating comparison of that value (slicing out of range panics)")
+    RANGE_IDX = re.compile(r"^core::ops::index::Index(Mut)?::index(_mut)?$|<impl \[T\]>::(split_at|split_at_mut|split_off|copy_within)$|Vec::<T, A>::(split_off|drain)$")
+    n_sl = 0
+    for f in sorted(fs, key=lambda f: (f.file, f.line, f.id)):
+        d = None
+        k = 0
+        for bi, t in f.calls():
+            c = t.get("f", "")
+            if not RANGE_IDX.search(c) or f.blocks[bi].get("cleanup") or len(t.get("a", [])) < 2:
+                continue
+            ga = " ".join(t.get("ga") or [])
+            if c.startswith("core::ops::index::") and "ops::range::Range" not in ga:
+                continue
+            n_sl += 1
+            rep.site()
+            k += 1
+            if d is None:
+                d = flow.Defs(f)
+            srcs = _value_sources(f, d, t["a"][1])
+            reads = set((x[1], x[2]) for x in srcs if x[0] == "call" and re.match(r"^io::BinRead::read_(u8|i8|u16|i16|u32|i32|u64|i64)$", x[1] or ""))
+            key = "%s|slice-%d" % (root_fn(f.id), k)
+            loc = "%s:%d" % (f.file, t["ln"])
+            if not reads:
+                rep.ok("R-TAINT-SLICE", key, loc, "bounds do not come from a scalar read from the file")
+                continue
+            guarded = False
+            for g in flow.guards_before(f, bi, d):
+                gs = set((x[1], x[2]) for side in ("a", "b") for x in g[side] if x[0] == "call")
+                if gs & reads:
+                    guarded = True
+            rep.check(guarded, "R-TAINT-SLICE", key, loc, "the file-supplied bound is compared before it is used",
+                      "the bound of this slice comes from %s read from the file and is not range-checked first: a crafted file makes the slice panic" % sorted(r[0].rsplit("::", 1)[-1] for r in reads))
+    rep.floor("range-slicing sites in the reader layer", n_sl, 3)
     return rep
